@@ -238,8 +238,16 @@ impl KademliaRoutingTable {
                 }
             }
 
-            // Early exit: if we have enough candidates, we can stop expanding
-            if candidates.len() >= count * CANDIDATE_EXPANSION_FACTOR {
+            // Early exit: if we have enough candidates, we can stop expanding - but only
+            // when no unvisited bucket can hold a closer node.  Relative to the key, the
+            // target bucket is closest, then come ALL buckets above it (their nodes share
+            // the local prefix, hence the key's, up to the target bit), then the buckets
+            // below it, one by one.  So stopping is safe after the target bucket alone,
+            // or once every bucket above the target has been visited.
+            let above_exhausted = target_bucket + offset >= KADEMLIA_BUCKET_COUNT - 1;
+            if candidates.len() >= count * CANDIDATE_EXPANSION_FACTOR
+                && (offset == 0 || above_exhausted)
+            {
                 break;
             }
         }
